@@ -134,5 +134,20 @@ CHECKS["C09"] = {
             "output, not proved (no Gallina model of UiForm serialisation yet). F6 and F17 were genuine defects, repaired by fix: commits.",
 }
 
+CHECKS["C11"] = {
+    "text": "Proofs (closed under the global context) about the model of UiObject::build / LayoutItemContent::build / Widget::build: for EVERY document whose objects "
+            "are placed where their kind is accepted, the elements of the form enumerate every object exactly once and in document order, nested in the element of "
+            "their parent (C11_every_object_once_in_order, C11_subtree_names, C11_widget_children_in_order, C11_layout_items_in_order); a static separator has no "
+            "element of its own; the <addaction> list is the action-like children in declaration order, or the explicit `actions:` list exactly as written "
+            "(C11_addactions_in_order, C11_explicit_actions_as_written); well-placed documents raise no placement diagnostic (C11_well_placed_no_error). Tie: the "
+            "element tree of the real .ui and the placement diagnostics (kind, object, order) vs the model's form_of on generated object trees of every kind, one "
+            "third with misplaced kinds. Independent oracle on the real output: a parallel walk of the source tree and the .ui (class, name, marker property, "
+            "<item> wrapping, sibling order, <addaction> list, object count).",
+    "technique": "Coq proof by tree induction over a model of the element-kind dispatch + differential execution of the model against the real .ui element tree + parallel-walk oracle",
+    "design_ref": "5 C11",
+    "note": "Trusted: harness uigen + xml.etree; the kind of a class (widget/layout/...) comes from the class graph (C17); names of id-less objects predicted by a port of the "
+            "naming rule (C10's subject). Per-item attributes (row/column, tab titles) are C12's/C14's subject, not compared here.",
+}
+
 NOT_YET = {
 }
